@@ -208,6 +208,8 @@ func genConfine() {
 		l.defStr("chainguardKeyName", assignOf("DiscoverKeys", "keyName"))
 		l.defStr("alpineKeyFile", assignOf("APK.fetchAlpineKeys", "filename"))
 		l.defStr("alpineKeyBase", assignOf("APK.fetchAlpineKeys", "basefilenameEscape"))
+		l.defStr("alpineKeyUnescape", assignOf("APK.fetchAlpineKeys", "basefilename"))
+		l.defStr("alpineKeyOpenArg", firstArgOf("APK.fetchAlpineKeys", "a.fs", "OpenFile"))
 		c := load("pkg/apk/apk/const.go")
 		if v, ok := c.stringVar("keysDirPath"); ok {
 			l.defStr("keysDirPath", v)
